@@ -428,10 +428,9 @@ theorem deliver_mem {hung cs : List Nat} {o : Outcome} {x : Nat} {o' : Outcome}
   | cons c cs ih =>
     simp only [deliver] at h
     split at h
-    · simp only [List.mem_map, List.mem_filter] at h
-      obtain ⟨y, ⟨hy, _⟩, hxy⟩ := h
-      simp only [Prod.mk.injEq] at hxy
-      exact ⟨by rw [← hxy.1]; exact List.mem_cons_of_mem _ hy, Or.inr hxy.2.symm⟩
+    · simp only [sendServesAllCallers, if_true] at h
+      obtain ⟨h1, h2⟩ := ih h
+      exact ⟨List.mem_cons_of_mem _ h1, h2⟩
     · rcases List.mem_cons.1 h with h | h
       · simp only [Prod.mk.injEq] at h
         exact ⟨by rw [h.1]; exact List.mem_cons_self .., Or.inl h.2⟩
@@ -448,7 +447,8 @@ theorem deliver_callers (hung cs : List Nat) (o : Outcome) :
     split
     · rename_i hc
       have hc' : c ∈ hung := by simpa using hc
-      simp [hc', List.map_map, Function.comp_def]
+      simp only [sendServesAllCallers, if_true, ih]
+      simp [hc']
     · rename_i hc
       have hc' : c ∉ hung := by simpa using hc
       simp only [List.map_cons, ih, List.filter_cons]
@@ -1142,6 +1142,35 @@ theorem bestPad_spec {cs : List Content} {b : Content} (h : bestPad cs = some b)
   · cases h1
 
 
+theorem foldl_padStep_some (cs : List Content) (b0 : Content) : ∃ b, cs.foldl padStep (some b0) = some b := by
+  induction cs generalizing b0 with
+  | nil => exact ⟨b0, rfl⟩
+  | cons c cs ih =>
+    obtain ⟨b', e, _⟩ := padStep_ge_old (b0 := b0) (c := c)
+    simp only [List.foldl_cons, e]
+    exact ih b'
+
+/-- no scratchpad is selected only if none is valid -/
+theorem bestPad_none {cs : List Content} (h : bestPad cs = none) : ∀ x ∈ cs, padValid x = false := by
+  unfold bestPad at h
+  induction cs with
+  | nil => simp
+  | cons c cs ih =>
+    simp only [List.foldl_cons] at h
+    cases hv : padValid c with
+    | true =>
+      obtain ⟨b', e, _⟩ := padStep_ge_new (best := none) hv
+      rw [e] at h
+      obtain ⟨b, hb⟩ := foldl_padStep_some cs b'
+      rw [hb] at h; cases h
+    | false =>
+      have e : padStep none c = none := by simp [padStep, hv]
+      rw [e] at h
+      intro x hx
+      rcases List.mem_cons.1 hx with hx | hx
+      · subst hx; exact hv
+      · exact ih h x hx
+
 /-- a closed channel is observed only behind a sender whose receiver was dropped -/
 theorem deliver_closed {hung cs : List Nat} {o : Outcome} {x : Nat}
     (h : (x, Outcome.closed) ∈ (deliver hung cs o).1) : o = .closed ∨ ∃ c' ∈ cs, c' ∈ hung := by
@@ -1158,6 +1187,39 @@ theorem deliver_closed {hung cs : List Nat} {o : Outcome} {x : Nat}
       · rcases ih h with h | ⟨c', h1, h2⟩
         · left; exact h
         · right; exact ⟨c', List.mem_cons_of_mem _ h1, h2⟩
+
+/-- every sender is served (`Gen.sendServesAllCallers`): nobody observes a closed channel -/
+theorem deliver_no_closed {hung cs : List Nat} {o : Outcome} {x : Nat}
+    (h : (x, Outcome.closed) ∈ (deliver hung cs o).1) : o = .closed := by
+  induction cs with
+  | nil => simp [deliver] at h
+  | cons c cs ih =>
+    simp only [deliver] at h
+    split at h
+    · simp only [sendServesAllCallers, if_true] at h
+      exact ih h
+    · rcases List.mem_cons.1 h with h | h
+      · simp only [Prod.mk.injEq] at h
+        exact h.2.symm
+      · exact ih h
+
+/-- a live sender receives exactly the outcome sent, whoever else hung up -/
+theorem deliver_live {hung cs : List Nat} {o : Outcome} {x : Nat} (hx : x ∈ cs) (hl : x ∉ hung) :
+    (x, o) ∈ (deliver hung cs o).1 := by
+  induction cs with
+  | nil => simp at hx
+  | cons c cs ih =>
+    simp only [deliver]
+    split
+    · rename_i hc
+      have hc' : c ∈ hung := by simpa using hc
+      simp only [sendServesAllCallers, if_true]
+      rcases List.mem_cons.1 hx with e | hx
+      · subst e; exact absurd hc' hl
+      · exact ih hx
+    · rcases List.mem_cons.1 hx with e | hx
+      · subst e; exact List.mem_cons_self ..
+      · exact List.mem_cons_of_mem _ (ih hx)
 
 theorem sendChecked_ne_closed (cfg : Cfg) (c : Content) : sendChecked cfg c ≠ .closed := by
   unfold sendChecked
@@ -1259,6 +1321,53 @@ theorem step_closed {s : State} {op : Op} {x : Nat} (h : (x, Outcome.closed) ∈
       rcases deliver_closed h with hc | hc
       · exact absurd hc (timeoutOutcome_ne_closed _)
       · exact ⟨q, (findQ_some hq).1, (deliver_mem h).1, hc⟩
+  | hangup caller =>
+    simp only [step] at h
+    split at h <;> simp at h
+
+/-- no step lets any caller observe a closed channel (every sender is served, `Gen.sendServesAllCallers`) -/
+theorem step_no_closed {s : State} {op : Op} {x : Nat} : (x, Outcome.closed) ∉ (step s op).2.deliveries := by
+  intro h
+  cases op with
+  | get key caller cfg =>
+    simp only [step] at h
+    split at h
+    · simp at h
+    · split at h <;> simp at h
+  | found qid p c fk =>
+    simp only [step] at h
+    split at h
+    · simp at h
+    · split at h
+      · simp at h
+      split at h
+      · simp only [terminate] at h
+        exact completedOutcome_ne_closed _ _ _ _ (deliver_no_closed h)
+      · simp at h
+  | finished qid =>
+    simp only [step] at h
+    split at h
+    · simp at h
+    · simp only [terminate] at h
+      exact finishedOutcome_ne_closed _ (deliver_no_closed h)
+  | notFound qid =>
+    simp only [step] at h
+    split at h
+    · simp at h
+    · simp only [terminate] at h
+      cases deliver_no_closed h
+  | quorumFailed qid =>
+    simp only [step] at h
+    split at h
+    · simp at h
+    · simp only [terminate] at h
+      cases deliver_no_closed h
+  | timeout qid =>
+    simp only [step] at h
+    split at h
+    · simp at h
+    · simp only [terminate] at h
+      exact timeoutOutcome_ne_closed _ (deliver_no_closed h)
   | hangup caller =>
     simp only [step] at h
     split at h <;> simp at h
@@ -1447,5 +1556,75 @@ theorem invRK_foldl (ops : List Op) : ∀ s, Inv s → InvRK s → InvRK (ops.fo
 
 theorem invRK_run (ops : List Op) : InvRK (run ops) :=
   invRK_foldl ops _ inv_init (by intro q hq; simp at hq)
+
+/-! ### the visiting order of a result map -/
+
+theorem entry_unique {m : List (Nat × Content)} (h : (m.map (·.1)).Nodup) {a b : Nat × Content}
+    (ha : a ∈ m) (hb : b ∈ m) (hab : a.1 = b.1) : a = b := by
+  induction m with
+  | nil => simp at ha
+  | cons x xs ih =>
+    simp only [List.map_cons, List.nodup_cons, List.mem_map, not_exists, not_and] at h
+    rcases List.mem_cons.1 ha with ha' | ha' <;> rcases List.mem_cons.1 hb with hb' | hb'
+    · rw [ha', hb']
+    · subst ha'; exact absurd hab.symm (h.1 b hb')
+    · subst hb'; exact absurd hab (h.1 a ha')
+    · exact ih h.2 ha' hb'
+
+theorem insertByKey_perm (x : Nat × Content) (m : List (Nat × Content)) : (insertByKey x m).Perm (x :: m) := by
+  induction m with
+  | nil => exact List.Perm.refl _
+  | cons y ys ih =>
+    simp only [insertByKey]
+    split
+    · exact List.Perm.refl _
+    · exact ((List.Perm.cons y ih).trans (List.Perm.swap x y ys))
+
+theorem sortByKey_perm (m : List (Nat × Content)) : (sortByKey m).Perm m := by
+  induction m with
+  | nil => exact List.Perm.refl _
+  | cons x xs ih =>
+    simp only [sortByKey, List.foldr_cons]
+    exact (insertByKey_perm x _).trans (List.Perm.cons x ih)
+
+theorem insertByKey_sorted (x : Nat × Content) {m : List (Nat × Content)}
+    (h : m.Pairwise (fun a b => a.1 ≤ b.1)) : (insertByKey x m).Pairwise (fun a b => a.1 ≤ b.1) := by
+  induction m with
+  | nil => simp [insertByKey]
+  | cons y ys ih =>
+    simp only [insertByKey]
+    have hy := List.pairwise_cons.1 h
+    split
+    · rename_i hxy
+      refine List.pairwise_cons.2 ⟨?_, h⟩
+      intro z hz
+      rcases List.mem_cons.1 hz with e | hz
+      · subst e; exact hxy
+      · exact Nat.le_trans hxy (hy.1 z hz)
+    · rename_i hxy
+      refine List.pairwise_cons.2 ⟨?_, ih hy.2⟩
+      intro z hz
+      rcases List.mem_cons.1 ((insertByKey_perm x ys).subset hz) with e | hz
+      · subst e; omega
+      · exact hy.1 z hz
+
+theorem sortByKey_sorted (m : List (Nat × Content)) : (sortByKey m).Pairwise (fun a b => a.1 ≤ b.1) := by
+  induction m with
+  | nil => simp [sortByKey]
+  | cons x xs ih =>
+    simp only [sortByKey, List.foldr_cons]
+    exact insertByKey_sorted x ih
+
+/-- two listings of one map (distinct keys) are visited in the same order -/
+theorem sortByKey_eq_of_perm {m m' : List (Nat × Content)} (hp : m.Perm m') (hk : (m.map (·.1)).Nodup) :
+    sortByKey m = sortByKey m' := by
+  apply List.Perm.eq_of_pairwise (le := fun a b => a.1 ≤ b.1)
+  · intro a b ha hb h1 h2
+    have ha' : a ∈ m := (sortByKey_perm m).subset ha
+    have hb' : b ∈ m := hp.symm.subset ((sortByKey_perm m').subset hb)
+    exact entry_unique hk ha' hb' (Nat.le_antisymm h1 h2)
+  · exact sortByKey_sorted m
+  · exact sortByKey_sorted m'
+  · exact (sortByKey_perm m).trans (hp.trans (sortByKey_perm m').symm)
 
 end SafeNet.Quorum
